@@ -24,6 +24,11 @@ def run(ctx):
     rule_b(ctx, cr)
     rule_c(ctx, cr)
     rule_d(ctx, cr)
+    ctx.rule("C20.e", "appending or removing a trailing line does not change where the program "
+             "ends: the program's own End is present even when its last statement is an IF whose "
+             "branch ends in END (see C01.i)")
+    from rules import codegen
+    codegen.check_program_end(ctx, "C20.e", cr)
 
 
 def rule_a(ctx, cr):
